@@ -151,47 +151,47 @@ def utils_bisectLeftRange (a : (List Int)) (v : Int) (lo : Int) (hi : Int) : Opt
 def utils_BisectLeft (a : (List Int)) (v : Int) : Option Int := do
   (utils_bisectLeftRange a v 0 ((a).length : Int))
 
-/-- hms.go:42 -/
+/-- hms.go:35 -/
 def lib_GetTotalSeconds (hms : GoSem.HMS) : Option Int := do
   pure ((((hms).Hour * 3600) + ((hms).Minute * 60)) + (hms).Second)
 
-/-- hms.go:46 -/
+/-- hms.go:39 -/
 def lib_GetFloatHour (hms : GoSem.HMS) : Option Rat := do
   pure (((((hms).Hour : Int) : Rat) + ((((hms).Minute : Int) : Rat) / ((60 : Rat) / 1))) + ((((hms).Second : Int) : Rat) / ((3600 : Rat) / 1)))
 
-/-- hms.go:148 -/
+/-- hms.go:137 -/
 def lib_FloatHourToHMS (fh : Rat) : Option GoSem.HMS := do
   let total := (GoSem.ftoi ((Rat.floor ((fh * ((3600 : Rat) / 1)) + ((1 : Rat) / 2)) : Int) : Rat))
   pure ({ Hour := (GoSem.u8 (Int.tdiv total 3600)), Minute := (GoSem.u8 (Int.tmod (Int.tdiv total 60) 60)), Second := (GoSem.u8 (Int.tmod total 60)) } : GoSem.HMS)
 
-/-- date.go:66 -/
+/-- date.go:49 -/
 def lib_toUint8 (v : Int) : Option Int := do
   if ((decide (v < 0)) || (decide (v > 255))) then
     pure 255
   else
     pure (GoSem.u8 v)
 
-/-- hms.go:50 -/
+/-- hms.go:43 -/
 def lib_HMS_IsValid (hms : GoSem.HMS) : Option Bool := do
   pure (((decide ((hms).Hour < 24)) && (decide ((hms).Minute < 60))) && (decide ((hms).Second < 60)))
 
-/-- date.go:60 -/
+/-- date.go:43 -/
 def lib_Date_IsValid (date : GoSem.Date) : Option Bool := do
   pure ((((decide ((date).Month > 0)) && (decide ((date).Month < 13))) && (decide ((date).Day > 0))) && (decide ((date).Day < 40)))
 
-/-- hms.go:54 -/
+/-- hms.go:47 -/
 def lib_DHMS_IsValid (dhms : lib_DHMS) : Option Bool := do
   (lib_HMS_IsValid (dhms).HMS)
 
-/-- hms.go:62 -/
+/-- hms.go:55 -/
 def lib_HMSRange_IsValid (hms : lib_HMSRange) : Option Bool := do
   (do if (← (lib_HMS_IsValid (hms).Start)) then (lib_HMS_IsValid (hms).End) else pure false)
 
-/-- date.go:136 -/
+/-- date.go:105 -/
 def lib_DateHMS_IsValid (dt : lib_DateHMS) : Option Bool := do
   (do if (← (lib_Date_IsValid (dt).Date)) then (lib_HMS_IsValid (dt).HMS) else pure false)
 
-/-- interval/interval.go:167 -/
+/-- interval/interval.go:171 -/
 def interval_Less (p : (List interval_IntervalPoint)) (i : Int) (j : Int) : Option Bool := do
   let a ← (GoSem.idxA p i)
   let b ← (GoSem.idxA p j)
@@ -212,7 +212,7 @@ def interval_Less (p : (List interval_IntervalPoint)) (i : Int) (j : Int) : Opti
         else
           pure false
 
-/-- interval/interval.go:239 -/
+/-- interval/interval.go:243 -/
 def interval_GetPointList (list : (List interval_Interval)) (listId : Int) : Option (List interval_IntervalPoint) := do
   let count := ((list).length : Int)
   let points ← (GoSem.mkLen (2 * count) ({ Pos := 0, IsEnd := false, Closed := false, ListId := 0 } : interval_IntervalPoint))
@@ -235,7 +235,7 @@ def stack_Pop (s : (List Int)) : Option ((List Int) × Int) := do
 def stack_Push (s : (List Int)) (v : Int) : Option (List Int) := do
   pure (s ++ [v])
 
-/-- interval/interval.go:194 -/
+/-- interval/interval.go:198 -/
 def interval_GetIntervalList (points : (List interval_IntervalPoint)) : Option (Option (List interval_Interval)) := do
   let pcount := ((points).length : Int)
   let list ← (GoSem.mkCap (α := interval_Interval) (Int.tdiv pcount 2))
@@ -261,19 +261,131 @@ def interval_GetIntervalList (points : (List interval_IntervalPoint)) : Option (
   | GoSem.Flow.next (list, startedStack, start) =>
     pure (some list)
 
-/-- interval/interval.go:334 -/
+/-- interval/interval.go:331 -/
 def interval_Normalize (list : (List interval_Interval)) : Option (Option (List interval_Interval)) := do
   let points ← (interval_GetPointList list 0)
   let points ← SrcExt.sortWith interval_Less points
   (interval_GetIntervalList points)
 
--- NOT TRANSLATED: interval_Humanize (interval/interval.go:261): call of github.com/ilius/libgostarcal/interval.Interval.hasDetachableEnd (not in the list of translated functions)
+/-- interval/interval.go:265 -/
+def interval_Humanize (list : (List interval_Interval)) : Option (List interval_Interval) := do
+  let closedEndCount := (0 : Int)
+  let _r1 ← GoSem.forFold (ρ := Empty) (fun closedEndCount _i interval => do
+      if ((interval).ClosedEnd && (decide ((interval).End > (interval).Start))) then
+        let closedEndCount := (closedEndCount + 1)
+        pure (GoSem.Flow.next closedEndCount)
+      else
+        pure (GoSem.Flow.next closedEndCount)
+    ) list 0 closedEndCount
+  match _r1 with
+  | GoSem.Flow.ret _v => nomatch _v
+  | GoSem.Flow.next closedEndCount =>
+    if (decide (closedEndCount = 0)) then
+      pure list
+    else
+      let newLen := (((list).length : Int) + closedEndCount)
+      let newList ← (GoSem.mkCap (α := interval_Interval) newLen)
+      let _r2 ← GoSem.forFold (ρ := Empty) (fun newList _i interval_1 => do
+          if ((interval_1).ClosedEnd && (decide ((interval_1).End > (interval_1).Start))) then
+            let newList := (newList ++ [({ Start := (interval_1).Start, End := (interval_1).End, ClosedEnd := false } : interval_Interval)])
+            let newList := (newList ++ [({ Start := (interval_1).End, End := (interval_1).End, ClosedEnd := true } : interval_Interval)])
+            pure (GoSem.Flow.next newList)
+          else
+            let newList := (newList ++ [interval_1])
+            pure (GoSem.Flow.next newList)
+        ) list 0 newList
+      match _r2 with
+      | GoSem.Flow.ret _v => nomatch _v
+      | GoSem.Flow.next newList =>
+        pure newList
 
--- NOT TRANSLATED: interval_Extract (interval/interval.go:340): call of github.com/ilius/libgostarcal/interval.Interval.memberCount (not in the list of translated functions)
+/-- interval/interval.go:337 -/
+def interval_Extract (list : (List interval_Interval)) : Option (List Int) := do
+  let count := (0 : Int)
+  let _r1 ← GoSem.forFold (ρ := Empty) (fun count _i interval => do
+      let count := (count + ((interval).End - (interval).Start))
+      if (interval).ClosedEnd then
+        let count := (count + 1)
+        pure (GoSem.Flow.next count)
+      else
+        pure (GoSem.Flow.next count)
+    ) list 0 count
+  match _r1 with
+  | GoSem.Flow.ret _v => nomatch _v
+  | GoSem.Flow.next count =>
+    let extList ← (GoSem.mkCap (α := Int) count)
+    let _r3 ← GoSem.forFold (ρ := Empty) (fun extList _i interval_1 => do
+        let _r2 ← GoSem.forCount (ρ := Empty) (fun extList pos => do
+            let extList := (extList ++ [pos])
+            pure (GoSem.Flow.next extList)
+          ) (interval_1).Start (interval_1).End extList
+        match _r2 with
+        | GoSem.Flow.ret _v => nomatch _v
+        | GoSem.Flow.next extList =>
+          if (interval_1).ClosedEnd then
+            let extList := (extList ++ [(interval_1).End])
+            pure (GoSem.Flow.next extList)
+          else
+            pure (GoSem.Flow.next extList)
+      ) list 0 extList
+    match _r3 with
+    | GoSem.Flow.ret _v => nomatch _v
+    | GoSem.Flow.next extList =>
+      pure extList
 
--- NOT TRANSLATED: interval_IntervalListByNumList (interval/interval.go:475): three-clause for loop
+/-- interval/interval.go:463 -/
+def interval_IntervalListByNumList (nums : (List Int)) (minCount : Int) : Option (List interval_Interval) := do
+  let list ← (GoSem.mkCap (α := interval_Interval) ((nums).length : Int))
+  let tmpNums ← (GoSem.mkCap (α := Int) ((nums).length : Int))
+  let _r3 ← GoSem.forFold (ρ := Empty) (fun (list, tmpNums) _i num => do
+      let _c1 ← (do if (decide (((tmpNums).length : Int) > 0)) then pure (decide ((num - (← (GoSem.idx tmpNums (((tmpNums).length : Int) - 1)))) ≠ 1)) else pure false)
+      let (list, tmpNums) ← (do
+        if _c1 then
+          let list ← (do
+            if (decide (((tmpNums).length : Int) > minCount)) then
+              let list := (list ++ [({ Start := (← (GoSem.idx tmpNums 0)), End := (← (GoSem.idx tmpNums (((tmpNums).length : Int) - 1))), ClosedEnd := true } : interval_Interval)])
+              pure list
+            else
+              let _r2 ← GoSem.forFold (ρ := Empty) (fun list _i x => do
+                  let list := (list ++ [({ Start := x, End := x, ClosedEnd := true } : interval_Interval)])
+                  pure (GoSem.Flow.next list)
+                ) tmpNums 0 list
+              match _r2 with
+              | GoSem.Flow.ret _v => nomatch _v
+              | GoSem.Flow.next list =>
+                pure list
+            )
+          let tmpNums := ([] : (List Int))
+          pure (list, tmpNums)
+        else
+          pure (list, tmpNums)
+        )
+      let tmpNums := (tmpNums ++ [num])
+      pure (GoSem.Flow.next (list, tmpNums))
+    ) nums 0 (list, tmpNums)
+  match _r3 with
+  | GoSem.Flow.ret _v => nomatch _v
+  | GoSem.Flow.next (list, tmpNums) =>
+    let list ← (do
+      if (decide (((tmpNums).length : Int) > 0)) then
+        if (decide (((tmpNums).length : Int) > minCount)) then
+          let list := (list ++ [({ Start := (← (GoSem.idx tmpNums 0)), End := (← (GoSem.idx tmpNums (((tmpNums).length : Int) - 1))), ClosedEnd := true } : interval_Interval)])
+          pure list
+        else
+          let _r4 ← GoSem.forFold (ρ := Empty) (fun list _i num_1 => do
+              let list := (list ++ [({ Start := num_1, End := num_1, ClosedEnd := true } : interval_Interval)])
+              pure (GoSem.Flow.next list)
+            ) tmpNums 0 list
+          match _r4 with
+          | GoSem.Flow.ret _v => nomatch _v
+          | GoSem.Flow.next list =>
+            pure list
+      else
+        pure list
+      )
+    pure list
 
-/-- interval/interval.go:380 -/
+/-- interval/interval.go:368 -/
 def interval_intersectionOfSomeIntervalLists_endPoint (state : interval_IntervalListIntersectionState) (point : interval_IntervalPoint) : Option (Bool × interval_IntervalListIntersectionState) := do
   let state := { state with hasNil := false }
   let state := { state with start := (-9223372036854775808) }
@@ -311,7 +423,7 @@ def interval_intersectionOfSomeIntervalLists_endPoint (state : interval_Interval
       let state := { state with openStartList := (← GoSem.setA (state).openStartList (point).ListId (-9223372036854775808)) }
       pure (false, state)
 
-/-- interval/interval.go:418 -/
+/-- interval/interval.go:406 -/
 def interval_IntersectionOfSomeIntervalLists (lists : (List (List interval_Interval))) : Option (Option (List interval_Interval)) := do
   let err := false
   let listCount := ((lists).length : Int)
@@ -365,7 +477,7 @@ def interval_IntersectionOfSomeIntervalLists (lists : (List (List interval_Inter
         | GoSem.Flow.next state =>
           pure (some (state).result)
 
-/-- interval/interval.go:369 -/
+/-- interval/interval.go:357 -/
 def interval_Intersection (list : (List interval_Interval)) (list2 : (List interval_Interval)) : Option (Option (List interval_Interval)) := do
   (interval_IntersectionOfSomeIntervalLists [list, list2])
 
@@ -989,47 +1101,47 @@ def utils_bisectLeftRange_chk (a : (List Int)) (v : Int) (lo : Int) (hi : Int) :
 def utils_BisectLeft_chk (a : (List Int)) (v : Int) : Option Int := do
   (utils_bisectLeftRange_chk a v 0 ((a).length : Int))
 
-/-- hms.go:42 -/
+/-- hms.go:35 -/
 def lib_GetTotalSeconds_chk (hms : GoSem.HMS) : Option Int := do
   (GoSem.chk64 ((← (GoSem.chk64 ((← (GoSem.chk64 ((hms).Hour * 3600))) + (← (GoSem.chk64 ((hms).Minute * 60)))))) + (hms).Second))
 
-/-- hms.go:46 -/
+/-- hms.go:39 -/
 def lib_GetFloatHour_chk (hms : GoSem.HMS) : Option Rat := do
   pure (((((hms).Hour : Int) : Rat) + ((((hms).Minute : Int) : Rat) / ((60 : Rat) / 1))) + ((((hms).Second : Int) : Rat) / ((3600 : Rat) / 1)))
 
-/-- hms.go:148 -/
+/-- hms.go:137 -/
 def lib_FloatHourToHMS_chk (fh : Rat) : Option GoSem.HMS := do
   let total := (GoSem.ftoi ((Rat.floor ((fh * ((3600 : Rat) / 1)) + ((1 : Rat) / 2)) : Int) : Rat))
   pure ({ Hour := (GoSem.u8 (Int.tdiv total 3600)), Minute := (GoSem.u8 (Int.tmod (Int.tdiv total 60) 60)), Second := (GoSem.u8 (Int.tmod total 60)) } : GoSem.HMS)
 
-/-- date.go:66 -/
+/-- date.go:49 -/
 def lib_toUint8_chk (v : Int) : Option Int := do
   if ((decide (v < 0)) || (decide (v > 255))) then
     pure 255
   else
     pure (GoSem.u8 v)
 
-/-- hms.go:50 -/
+/-- hms.go:43 -/
 def lib_HMS_IsValid_chk (hms : GoSem.HMS) : Option Bool := do
   pure (((decide ((hms).Hour < 24)) && (decide ((hms).Minute < 60))) && (decide ((hms).Second < 60)))
 
-/-- date.go:60 -/
+/-- date.go:43 -/
 def lib_Date_IsValid_chk (date : GoSem.Date) : Option Bool := do
   pure ((((decide ((date).Month > 0)) && (decide ((date).Month < 13))) && (decide ((date).Day > 0))) && (decide ((date).Day < 40)))
 
-/-- hms.go:54 -/
+/-- hms.go:47 -/
 def lib_DHMS_IsValid_chk (dhms : lib_DHMS) : Option Bool := do
   (lib_HMS_IsValid_chk (dhms).HMS)
 
-/-- hms.go:62 -/
+/-- hms.go:55 -/
 def lib_HMSRange_IsValid_chk (hms : lib_HMSRange) : Option Bool := do
   (do if (← (lib_HMS_IsValid_chk (hms).Start)) then (lib_HMS_IsValid_chk (hms).End) else pure false)
 
-/-- date.go:136 -/
+/-- date.go:105 -/
 def lib_DateHMS_IsValid_chk (dt : lib_DateHMS) : Option Bool := do
   (do if (← (lib_Date_IsValid_chk (dt).Date)) then (lib_HMS_IsValid_chk (dt).HMS) else pure false)
 
-/-- interval/interval.go:167 -/
+/-- interval/interval.go:171 -/
 def interval_Less_chk (p : (List interval_IntervalPoint)) (i : Int) (j : Int) : Option Bool := do
   let a ← (GoSem.idxA p i)
   let b ← (GoSem.idxA p j)
@@ -1050,7 +1162,7 @@ def interval_Less_chk (p : (List interval_IntervalPoint)) (i : Int) (j : Int) : 
         else
           pure false
 
-/-- interval/interval.go:239 -/
+/-- interval/interval.go:243 -/
 def interval_GetPointList_chk (list : (List interval_Interval)) (listId : Int) : Option (List interval_IntervalPoint) := do
   let count := ((list).length : Int)
   let points ← (GoSem.mkLen (← (GoSem.chk64 (2 * count))) ({ Pos := 0, IsEnd := false, Closed := false, ListId := 0 } : interval_IntervalPoint))
@@ -1073,7 +1185,7 @@ def stack_Pop_chk (s : (List Int)) : Option ((List Int) × Int) := do
 def stack_Push_chk (s : (List Int)) (v : Int) : Option (List Int) := do
   pure (s ++ [v])
 
-/-- interval/interval.go:194 -/
+/-- interval/interval.go:198 -/
 def interval_GetIntervalList_chk (points : (List interval_IntervalPoint)) : Option (Option (List interval_Interval)) := do
   let pcount := ((points).length : Int)
   let list ← (GoSem.mkCap (α := interval_Interval) (Int.tdiv pcount 2))
@@ -1099,13 +1211,131 @@ def interval_GetIntervalList_chk (points : (List interval_IntervalPoint)) : Opti
   | GoSem.Flow.next (list, startedStack, start) =>
     pure (some list)
 
-/-- interval/interval.go:334 -/
+/-- interval/interval.go:331 -/
 def interval_Normalize_chk (list : (List interval_Interval)) : Option (Option (List interval_Interval)) := do
   let points ← (interval_GetPointList_chk list 0)
   let points ← SrcExt.sortWith interval_Less points
   (interval_GetIntervalList_chk points)
 
-/-- interval/interval.go:380 -/
+/-- interval/interval.go:265 -/
+def interval_Humanize_chk (list : (List interval_Interval)) : Option (List interval_Interval) := do
+  let closedEndCount := (0 : Int)
+  let _r1 ← GoSem.forFold (ρ := Empty) (fun closedEndCount _i interval => do
+      if ((interval).ClosedEnd && (decide ((interval).End > (interval).Start))) then
+        let closedEndCount ← (GoSem.chk64 (closedEndCount + 1))
+        pure (GoSem.Flow.next closedEndCount)
+      else
+        pure (GoSem.Flow.next closedEndCount)
+    ) list 0 closedEndCount
+  match _r1 with
+  | GoSem.Flow.ret _v => nomatch _v
+  | GoSem.Flow.next closedEndCount =>
+    if (decide (closedEndCount = 0)) then
+      pure list
+    else
+      let newLen ← (GoSem.chk64 (((list).length : Int) + closedEndCount))
+      let newList ← (GoSem.mkCap (α := interval_Interval) newLen)
+      let _r2 ← GoSem.forFold (ρ := Empty) (fun newList _i interval_1 => do
+          if ((interval_1).ClosedEnd && (decide ((interval_1).End > (interval_1).Start))) then
+            let newList := (newList ++ [({ Start := (interval_1).Start, End := (interval_1).End, ClosedEnd := false } : interval_Interval)])
+            let newList := (newList ++ [({ Start := (interval_1).End, End := (interval_1).End, ClosedEnd := true } : interval_Interval)])
+            pure (GoSem.Flow.next newList)
+          else
+            let newList := (newList ++ [interval_1])
+            pure (GoSem.Flow.next newList)
+        ) list 0 newList
+      match _r2 with
+      | GoSem.Flow.ret _v => nomatch _v
+      | GoSem.Flow.next newList =>
+        pure newList
+
+/-- interval/interval.go:337 -/
+def interval_Extract_chk (list : (List interval_Interval)) : Option (List Int) := do
+  let count := (0 : Int)
+  let _r1 ← GoSem.forFold (ρ := Empty) (fun count _i interval => do
+      let count ← (GoSem.chk64 (count + (← (GoSem.chk64 ((interval).End - (interval).Start)))))
+      if (interval).ClosedEnd then
+        let count ← (GoSem.chk64 (count + 1))
+        pure (GoSem.Flow.next count)
+      else
+        pure (GoSem.Flow.next count)
+    ) list 0 count
+  match _r1 with
+  | GoSem.Flow.ret _v => nomatch _v
+  | GoSem.Flow.next count =>
+    let extList ← (GoSem.mkCap (α := Int) count)
+    let _r3 ← GoSem.forFold (ρ := Empty) (fun extList _i interval_1 => do
+        let _r2 ← GoSem.forCount (ρ := Empty) (fun extList pos => do
+            let extList := (extList ++ [pos])
+            pure (GoSem.Flow.next extList)
+          ) (interval_1).Start (interval_1).End extList
+        match _r2 with
+        | GoSem.Flow.ret _v => nomatch _v
+        | GoSem.Flow.next extList =>
+          if (interval_1).ClosedEnd then
+            let extList := (extList ++ [(interval_1).End])
+            pure (GoSem.Flow.next extList)
+          else
+            pure (GoSem.Flow.next extList)
+      ) list 0 extList
+    match _r3 with
+    | GoSem.Flow.ret _v => nomatch _v
+    | GoSem.Flow.next extList =>
+      pure extList
+
+/-- interval/interval.go:463 -/
+def interval_IntervalListByNumList_chk (nums : (List Int)) (minCount : Int) : Option (List interval_Interval) := do
+  let list ← (GoSem.mkCap (α := interval_Interval) ((nums).length : Int))
+  let tmpNums ← (GoSem.mkCap (α := Int) ((nums).length : Int))
+  let _r3 ← GoSem.forFold (ρ := Empty) (fun (list, tmpNums) _i num => do
+      let _c1 ← (do if (decide (((tmpNums).length : Int) > 0)) then pure (decide ((← (GoSem.chk64 (num - (← (GoSem.idx tmpNums (← (GoSem.chk64 (((tmpNums).length : Int) - 1)))))))) ≠ 1)) else pure false)
+      let (list, tmpNums) ← (do
+        if _c1 then
+          let list ← (do
+            if (decide (((tmpNums).length : Int) > minCount)) then
+              let list := (list ++ [({ Start := (← (GoSem.idx tmpNums 0)), End := (← (GoSem.idx tmpNums (← (GoSem.chk64 (((tmpNums).length : Int) - 1))))), ClosedEnd := true } : interval_Interval)])
+              pure list
+            else
+              let _r2 ← GoSem.forFold (ρ := Empty) (fun list _i x => do
+                  let list := (list ++ [({ Start := x, End := x, ClosedEnd := true } : interval_Interval)])
+                  pure (GoSem.Flow.next list)
+                ) tmpNums 0 list
+              match _r2 with
+              | GoSem.Flow.ret _v => nomatch _v
+              | GoSem.Flow.next list =>
+                pure list
+            )
+          let tmpNums := ([] : (List Int))
+          pure (list, tmpNums)
+        else
+          pure (list, tmpNums)
+        )
+      let tmpNums := (tmpNums ++ [num])
+      pure (GoSem.Flow.next (list, tmpNums))
+    ) nums 0 (list, tmpNums)
+  match _r3 with
+  | GoSem.Flow.ret _v => nomatch _v
+  | GoSem.Flow.next (list, tmpNums) =>
+    let list ← (do
+      if (decide (((tmpNums).length : Int) > 0)) then
+        if (decide (((tmpNums).length : Int) > minCount)) then
+          let list := (list ++ [({ Start := (← (GoSem.idx tmpNums 0)), End := (← (GoSem.idx tmpNums (← (GoSem.chk64 (((tmpNums).length : Int) - 1))))), ClosedEnd := true } : interval_Interval)])
+          pure list
+        else
+          let _r4 ← GoSem.forFold (ρ := Empty) (fun list _i num_1 => do
+              let list := (list ++ [({ Start := num_1, End := num_1, ClosedEnd := true } : interval_Interval)])
+              pure (GoSem.Flow.next list)
+            ) tmpNums 0 list
+          match _r4 with
+          | GoSem.Flow.ret _v => nomatch _v
+          | GoSem.Flow.next list =>
+            pure list
+      else
+        pure list
+      )
+    pure list
+
+/-- interval/interval.go:368 -/
 def interval_intersectionOfSomeIntervalLists_endPoint_chk (state : interval_IntervalListIntersectionState) (point : interval_IntervalPoint) : Option (Bool × interval_IntervalListIntersectionState) := do
   let state := { state with hasNil := false }
   let state := { state with start := (-9223372036854775808) }
@@ -1143,7 +1373,7 @@ def interval_intersectionOfSomeIntervalLists_endPoint_chk (state : interval_Inte
       let state := { state with openStartList := (← GoSem.setA (state).openStartList (point).ListId (-9223372036854775808)) }
       pure (false, state)
 
-/-- interval/interval.go:418 -/
+/-- interval/interval.go:406 -/
 def interval_IntersectionOfSomeIntervalLists_chk (lists : (List (List interval_Interval))) : Option (Option (List interval_Interval)) := do
   let err := false
   let listCount := ((lists).length : Int)
@@ -1197,7 +1427,7 @@ def interval_IntersectionOfSomeIntervalLists_chk (lists : (List (List interval_I
         | GoSem.Flow.next state =>
           pure (some (state).result)
 
-/-- interval/interval.go:369 -/
+/-- interval/interval.go:357 -/
 def interval_Intersection_chk (list : (List interval_Interval)) (list2 : (List interval_Interval)) : Option (Option (List interval_Interval)) := do
   (interval_IntersectionOfSomeIntervalLists_chk [list, list2])
 
@@ -1733,6 +1963,6 @@ def hijriT_GetMonthLen_chk (monthData : hijri_MonthData) (year : Int) (month : I
     pure (GoSem.u8 (← (GoSem.chk64 ((← (hijriT_ToJd_chk monthData (← (SrcExt.lib_NewDate year (GoSem.u8 (month + 1)) 1)))) - (← (hijriT_ToJd_chk monthData (← (SrcExt.lib_NewDate year month 1))))))))
 
 /-- the functions translated on this run -/
-def translated : List String := ["utils_Mod", "utils_Div", "utils_Divmod", "utils_IntMin", "utils_GetHmsBySeconds", "utils_MonthListIsValid", "utils_DayListIsValid", "utils_WeekDayListIsValid", "utils_bisectLeftRange", "utils_BisectLeft", "lib_GetTotalSeconds", "lib_GetFloatHour", "lib_FloatHourToHMS", "lib_toUint8", "lib_HMS_IsValid", "lib_Date_IsValid", "lib_DHMS_IsValid", "lib_HMSRange_IsValid", "lib_DateHMS_IsValid", "interval_Less", "interval_GetPointList", "interval_GetIntervalList", "interval_Normalize", "interval_intersectionOfSomeIntervalLists_endPoint", "interval_IntersectionOfSomeIntervalLists", "interval_Intersection", "stack_Push", "stack_Pop", "rules_WeekMonth_IsValid", "julian_IsLeap", "julian_getYearDays", "julian_getMonthDayFromYdays", "julian_ToJd", "julian_JdTo", "julian_GetMonthLen", "jalali_IsLeap", "jalali_getMonthDayFromYdays", "jalali_ToJd", "jalali_JdTo", "jalali_GetMonthLen", "ethiopian_IsLeap", "ethiopian_ToJd", "ethiopian_JdTo", "ethiopian_GetMonthLen", "gprol_IsLeap", "gprol_ToJd", "gprol_JdTo", "gprol_GetMonthLen", "indian_IsLeap", "indian_ToJd", "indian_JdTo", "indian_GetMonthLen", "hijri_IsLeap", "hijri_ToJd", "hijri_JdTo", "hijri_GetMonthLen", "hijri_MonthData_GetDateFromJd", "hijri_MonthData_GetJdFromDate", "hijriT_IsLeap", "hijriT_MonthData_GetJdFromDate", "hijriT_MonthData_GetDateFromJd", "hijriT_ToJd", "hijriT_JdTo", "hijriT_GetMonthLen"]
+def translated : List String := ["utils_Mod", "utils_Div", "utils_Divmod", "utils_IntMin", "utils_GetHmsBySeconds", "utils_MonthListIsValid", "utils_DayListIsValid", "utils_WeekDayListIsValid", "utils_bisectLeftRange", "utils_BisectLeft", "lib_GetTotalSeconds", "lib_GetFloatHour", "lib_FloatHourToHMS", "lib_toUint8", "lib_HMS_IsValid", "lib_Date_IsValid", "lib_DHMS_IsValid", "lib_HMSRange_IsValid", "lib_DateHMS_IsValid", "interval_Less", "interval_GetPointList", "interval_GetIntervalList", "interval_Normalize", "interval_Humanize", "interval_Extract", "interval_IntervalListByNumList", "interval_intersectionOfSomeIntervalLists_endPoint", "interval_IntersectionOfSomeIntervalLists", "interval_Intersection", "stack_Push", "stack_Pop", "rules_WeekMonth_IsValid", "julian_IsLeap", "julian_getYearDays", "julian_getMonthDayFromYdays", "julian_ToJd", "julian_JdTo", "julian_GetMonthLen", "jalali_IsLeap", "jalali_getMonthDayFromYdays", "jalali_ToJd", "jalali_JdTo", "jalali_GetMonthLen", "ethiopian_IsLeap", "ethiopian_ToJd", "ethiopian_JdTo", "ethiopian_GetMonthLen", "gprol_IsLeap", "gprol_ToJd", "gprol_JdTo", "gprol_GetMonthLen", "indian_IsLeap", "indian_ToJd", "indian_JdTo", "indian_GetMonthLen", "hijri_IsLeap", "hijri_ToJd", "hijri_JdTo", "hijri_GetMonthLen", "hijri_MonthData_GetDateFromJd", "hijri_MonthData_GetJdFromDate", "hijriT_IsLeap", "hijriT_MonthData_GetJdFromDate", "hijriT_MonthData_GetDateFromJd", "hijriT_ToJd", "hijriT_JdTo", "hijriT_GetMonthLen"]
 
 end Starcal.Gen.Src
